@@ -1311,3 +1311,77 @@ def r08_14_embedded_pattern_starts_on_its_delimiter(ctx: Ctx) -> RuleResult:
     else:
         rr.fail(f.qual, f"after `if {unparse(guard.test)[:70]}: raise` it is not established that the cursor moved and that the current character is the start delimiter: other characters are accepted and the callers' \"cannot happen\" branch is reached", ctx.loc(f, guard))
     return rr
+
+
+# ------------------------------------------------------------------------------------------- R08.15 failure callbacks have the arity they are called with
+
+
+@rule("C08")
+def r08_15_failure_callbacks_fit_their_call(ctx: Ctx) -> RuleResult:
+    """The stepped builder receives failure callbacks and calls them only when a parse step FAILS: `failure(cursor)` for a text
+    literal, `failure_selector(cursor, expected_char)` for a character literal.  A callback of the wrong arity passes pattern
+    creation, formatting and every successful parse, and raises TypeError on the first text that mismatches at that position.
+    For every keyword argument that the callee calls, the function supplied at each call site must accept that many positional
+    arguments."""
+    from ..kit import bind_args
+
+    rr = RuleResult("R08.15", "callbacks handed to the stepped pattern builder accept as many positional arguments as the builder calls them with", min_instances=10)
+    M = ctx.M
+    b = M.cls("_SteppedPatternBuilder")
+    for callee in sorted(b.all_defs, key=lambda g: g.qual):
+        if isinstance(callee.node, ast.Lambda) or callee.decorators & {"overload", "typing.overload"}:
+            continue
+        params = {p.arg for p in callee.value_params}
+        arity: dict[str, int] = {}
+        for n in ast.walk(callee.node):
+            if isinstance(n, ast.Call) and isinstance(n.func, ast.Name) and n.func.id in params and not n.keywords and not any(isinstance(a, ast.Starred) for a in n.args):
+                arity[n.func.id] = len(n.args)
+        if not arity:
+            continue
+        for f in sorted(set(M.func_of_node.values()), key=lambda x: x.qual):
+            if not f.mod.rel.startswith(TEXT):
+                continue
+            nodes = ast.walk(f.node) if isinstance(f.node, ast.Lambda) else own_nodes(f.node)
+            for c in nodes:
+                if not (isinstance(c, ast.Call) and isinstance(c.func, ast.Attribute) and c.func.attr == callee.name.split("__")[-1] or isinstance(c, ast.Call) and isinstance(c.func, ast.Attribute) and c.func.attr == callee.name):
+                    continue
+                for k in c.keywords:
+                    if k.arg in arity and isinstance(k.value, (ast.Attribute, ast.Name)):
+                        tg = None
+                        if isinstance(k.value, ast.Attribute):
+                            owner = M.cls(unparse(k.value.value).split(".")[-1].split("[")[0], required=False)
+                            tg = (M.find_meta_method(owner, k.value.attr) or M.find_method(owner, k.value.attr)) if owner is not None else None
+                        if tg is None or isinstance(tg.node, ast.Lambda):
+                            continue
+                        rr.inst()
+                        npos = len([p for p in tg.value_params]) - len(tg.node.args.kwonlyargs)
+                        has_var = tg.node.args.vararg is not None
+                        ndef = len(tg.node.args.defaults)
+                        need = arity[k.arg]
+                        if (npos - ndef <= need <= npos) or (has_var and need >= npos - ndef):
+                            rr.ok({"call": f"{f.qual}: {k.arg}={unparse(k.value)}", "called with": need})
+                        else:
+                            rr.fail(f.qual, f"`{k.arg}={unparse(k.value)}`: {callee.name} calls this callback with {need} positional argument(s) (only when the text does not match), but {tg.qual} takes {npos}: TypeError out of parse on the first mismatching text", ctx.loc(f, c))
+    return rr
+
+
+@rule("C08")
+def r08_16_sentinel_instants_stay_inside(ctx: Ctx) -> RuleResult:
+    """Instant._before_min_value() / _after_max_value() are internal sentinels ("must never be exposed"): `_is_valid` is False and
+    every public operation on them misbehaves.  The text layer may COMPARE a value with them (to write "StartOfTime" /
+    "EndOfTime") but must never hand one out: no call of a sentinel constructor in the text layer may occur outside a
+    comparison."""
+    rr = RuleResult("R08.16", "the text layer only compares with the internal before-min / after-max instants, it never returns or wraps them", min_instances=1)
+    for f in sorted(set(ctx.M.func_of_node.values()), key=lambda x: x.qual):
+        if not f.mod.rel.startswith(TEXT):
+            continue
+        nodes = ast.walk(f.node) if isinstance(f.node, ast.Lambda) else own_nodes(f.node)
+        for n in nodes:
+            if isinstance(n, ast.Call) and isinstance(n.func, ast.Attribute) and n.func.attr in ("_before_min_value", "_after_max_value", "before_min_value", "after_max_value"):
+                rr.inst()
+                par = getattr(n, "_parent", None)
+                if isinstance(par, ast.Compare):
+                    rr.ok({"function": f.qual, "use": unparse(par)[:60]})
+                else:
+                    rr.fail(f.qual, f"`{unparse(par)[:80] if par is not None else unparse(n)}` hands out the internal sentinel `{n.func.attr}()`: callers receive an Instant whose `_is_valid` is False", ctx.loc(f, n))
+    return rr
